@@ -254,6 +254,13 @@ def cmd_checks(limit, files=None):
     ms = load()
     chk = load_chk()
     todo = [m for m in ms if m.get("tests") == "survived" and mkey(m) not in chk and (not files or m["file"] in files)]
+    # leave out sites that only concern progress display / logging / callbacks (no property depends on them)
+    import re as _re
+    dull = _re.compile(r"prog|logger|log_msg|print\(|showtext|_update\(|\.cb\(|callback|hook|debug|__repr__|__str__")
+
+    def line_of(m):
+        return open(os.path.join(SNAP, m["file"]), encoding="utf-8").read().splitlines()[m["line"] - 1]
+    todo = [m for m in todo if not dull.search(line_of(m))]
     random.Random(7).shuffle(todo)
     todo = todo[:limit]
     root = os.path.join(WORK, "c0")
